@@ -156,6 +156,7 @@ type c03Len struct {
 	entry       *c03St                             // facts about the parameters established at every call site (nil: none)
 	onCall      func(call *ast.CallExpr, st c03St) // record pass: every call expression with the state in force
 	NWriters    int
+	localLists  map[types.Object]bool // locals that carry a CSI.Parameters list under construction (computed on demand)
 }
 
 func newC03Len(c *Ctx, pk *packages.Package, name string, body *ast.BlockStmt, g *FG, csiParams *types.Var) *c03Len {
@@ -315,10 +316,252 @@ func (a *c03Len) isCSIList(e ast.Expr) bool {
 	if a.selectsCSIParams(e) {
 		return true
 	}
+	if a.isLocalList(e) {
+		return true
+	}
 	if d := a.singleDef(e); d != nil {
 		return a.selectsCSIParams(d)
 	}
 	return false
+}
+
+// isLocalList: e is a local variable in which a CSI.Parameters list is being built: it has the type of the field, its
+// value reaches a write of CSI.Parameters (directly, through append / re-slicing, or through another such local), and
+// every one of its uses is one the writer rule follows: assignment to it, append(L, …), len/cap(L), range L, L[i],
+// L[a:b], and the copy into CSI.Parameters / another such local. Every assignment to such a local is an obligation of
+// rule C03.h exactly like a write of the field itself (the element invariant is carried by the local by induction).
+func (a *c03Len) isLocalList(e ast.Expr) bool {
+	id, ok := unparen(e).(*ast.Ident)
+	if !ok || a.csiParams == nil {
+		return false
+	}
+	if a.localLists == nil {
+		a.findLocalLists()
+	}
+	return a.localLists[a.info.ObjectOf(id)]
+}
+
+// listSource: the list expression whose elements the value of rhs consists of (besides appended ones):
+// L, L[a:b], append(L, …) -> L.
+func (a *c03Len) listSource(rhs ast.Expr) ast.Expr {
+	rhs = unparen(rhs)
+	switch t := rhs.(type) {
+	case *ast.SliceExpr:
+		return a.listSource(t.X)
+	case *ast.CallExpr:
+		if id, ok := unparen(t.Fun).(*ast.Ident); ok && len(t.Args) >= 1 {
+			if b, ok := a.info.Uses[id].(*types.Builtin); ok && b.Name() == "append" {
+				return a.listSource(t.Args[0])
+			}
+		}
+	}
+	return rhs
+}
+
+func (a *c03Len) findLocalLists() {
+	a.localLists = map[types.Object]bool{}
+	cand := map[types.Object]bool{}
+	inspectNoLit(a.body, func(n ast.Node) bool {
+		if id, ok := n.(*ast.Ident); ok {
+			if v, ok := a.info.Defs[id].(*types.Var); ok && !v.IsField() && types.Identical(v.Type(), a.csiParams.Type()) {
+				cand[v] = true
+			}
+		}
+		return true
+	})
+	if len(cand) == 0 {
+		return
+	}
+	// flows[o]: the targets the value of o is copied into
+	type target struct {
+		field bool
+		obj   types.Object
+	}
+	flows := map[types.Object][]target{}
+	flow := func(lhs, rhs ast.Expr) {
+		src, ok := a.listSource(rhs).(*ast.Ident)
+		if !ok {
+			return
+		}
+		o := a.info.ObjectOf(src)
+		if !cand[o] {
+			return
+		}
+		lhs = unparen(lhs)
+		if a.selectsCSIParams(lhs) {
+			flows[o] = append(flows[o], target{field: true})
+		} else if lid, ok := lhs.(*ast.Ident); ok {
+			flows[o] = append(flows[o], target{obj: a.info.ObjectOf(lid)})
+		}
+	}
+	ast.Inspect(a.body, func(n ast.Node) bool {
+		switch t := n.(type) {
+		case *ast.AssignStmt:
+			if len(t.Lhs) == len(t.Rhs) {
+				for i := range t.Lhs {
+					flow(t.Lhs[i], t.Rhs[i])
+				}
+			}
+		case *ast.ValueSpec:
+			if len(t.Names) == len(t.Values) {
+				for i := range t.Names {
+					flow(t.Names[i], t.Values[i])
+				}
+			}
+		case *ast.KeyValueExpr:
+			if id, ok := t.Key.(*ast.Ident); ok && a.info.ObjectOf(id) == types.Object(a.csiParams) {
+				if src, ok := a.listSource(t.Value).(*ast.Ident); ok && cand[a.info.ObjectOf(src)] {
+					flows[a.info.ObjectOf(src)] = append(flows[a.info.ObjectOf(src)], target{field: true})
+				}
+			}
+		}
+		return true
+	})
+	// every use is a followed one
+	usesOK := func(o types.Object) bool {
+		if a.untracked[o] {
+			return false
+		}
+		good := true
+		ast.Inspect(a.body, func(n ast.Node) bool {
+			id, ok := n.(*ast.Ident)
+			if !ok || !good {
+				return good
+			}
+			if a.info.Uses[id] != o {
+				return true
+			}
+			var cur ast.Node = id
+			p := a.par[cur]
+			for {
+				if pe, ok := p.(*ast.ParenExpr); ok {
+					cur, p = pe, a.par[pe]
+					continue
+				}
+				break
+			}
+			switch t := p.(type) {
+			case *ast.AssignStmt:
+				if len(t.Lhs) != len(t.Rhs) {
+					good = false
+					return false
+				}
+				for i, l := range t.Lhs {
+					if l == cur && t.Tok != token.ASSIGN && t.Tok != token.DEFINE {
+						good = false
+					}
+					if t.Rhs[i] == cur {
+						// plain copy: only into the field or another candidate
+						tl := unparen(t.Lhs[i])
+						lid, isID := tl.(*ast.Ident)
+						if !a.selectsCSIParams(tl) && !(isID && cand[a.info.ObjectOf(lid)]) {
+							good = false
+						}
+					}
+				}
+			case *ast.ValueSpec:
+				for i, v := range t.Values {
+					if v == cur && !(i < len(t.Names) && cand[a.info.ObjectOf(t.Names[i])]) {
+						good = false
+					}
+				}
+			case *ast.CallExpr:
+				fid, isID := unparen(t.Fun).(*ast.Ident)
+				var bi *types.Builtin
+				if isID {
+					bi, _ = a.info.Uses[fid].(*types.Builtin)
+				}
+				switch {
+				case bi != nil && (bi.Name() == "len" || bi.Name() == "cap"):
+				case bi != nil && bi.Name() == "append" && len(t.Args) >= 1 && t.Args[0] == cur && !t.Ellipsis.IsValid():
+					// the appended-to list; the result must itself be assigned to a followed place (checked where it is written)
+					switch up := a.par[t].(type) {
+					case *ast.AssignStmt, *ast.ValueSpec, *ast.KeyValueExpr:
+						_ = up
+					default:
+						good = false
+					}
+				default:
+					good = false
+				}
+			case *ast.RangeStmt:
+				if t.X != cur {
+					good = false
+				}
+			case *ast.IndexExpr:
+				if t.X != cur {
+					good = false
+					break
+				}
+				// L[i] read, or L[i] = v (an obligation of its own); not &L[i], not L[i] = append(L[i], …) in place …
+				switch up := a.par[t].(type) {
+				case *ast.UnaryExpr:
+					if up.Op == token.AND {
+						good = false
+					}
+				case *ast.IncDecStmt:
+					good = false
+				case *ast.AssignStmt:
+					for _, l := range up.Lhs {
+						if l == ast.Expr(t) && up.Tok != token.ASSIGN {
+							good = false
+						}
+					}
+				case *ast.IndexExpr:
+					// L[i][j]: a read is harmless; a store through it cannot shorten the element
+				}
+			case *ast.SliceExpr:
+				if t.X != cur {
+					good = false
+					break
+				}
+				switch a.par[t].(type) {
+				case *ast.AssignStmt, *ast.ValueSpec, *ast.KeyValueExpr, *ast.CallExpr:
+				default:
+					good = false
+				}
+				if ce, ok := a.par[t].(*ast.CallExpr); ok {
+					fid, isID := unparen(ce.Fun).(*ast.Ident)
+					bi, _ := a.info.Uses[fid].(*types.Builtin)
+					if !isID || bi == nil || !(bi.Name() == "len" || bi.Name() == "cap" || (bi.Name() == "append" && ce.Args[0] == ast.Expr(t))) {
+						good = false
+					}
+				}
+			case *ast.KeyValueExpr:
+				kid, isID := t.Key.(*ast.Ident)
+				if !(isID && t.Value == cur && a.info.ObjectOf(kid) == types.Object(a.csiParams)) {
+					good = false
+				}
+			default:
+				good = false
+			}
+			return good
+		})
+		return good
+	}
+	// reaches the field
+	feeds := map[types.Object]bool{}
+	for changed := true; changed; {
+		changed = false
+		for o := range cand {
+			if feeds[o] {
+				continue
+			}
+			for _, t := range flows[o] {
+				if t.field || feeds[t.obj] {
+					feeds[o] = true
+					changed = true
+				}
+			}
+		}
+	}
+	for o := range feeds {
+		if usesOK(o) {
+			a.localLists[o] = true
+		}
+	}
+	// a list fed by a local that is not followed cannot be followed either: the writer rule then reports the write of
+	// the field / the followed local from an unknown source (undecided), which is what it did before
 }
 
 // isCSIElem: e denotes an element of some CSI.Parameters list.
@@ -867,6 +1110,10 @@ func (a *c03Len) visit(n ast.Node, st c03St) {
 			if a.record && a.wantWriters {
 				a.writerLit(st, t)
 			}
+		case *ast.ValueSpec:
+			if a.record && a.wantWriters {
+				a.writerSpec(st, t)
+			}
 		}
 		return true
 	})
@@ -1192,7 +1439,7 @@ func (a *c03Len) writerValue(st c03St, what string, pos token.Pos, rhs ast.Expr,
 	case *ast.CallExpr:
 		if id, ok := unparen(t.Fun).(*ast.Ident); ok {
 			if b, ok := a.info.Uses[id].(*types.Builtin); ok && b.Name() == "append" && len(t.Args) >= 1 {
-				if !a.selectsCSIParams(t.Args[0]) {
+				if !a.isCSIListValue(t.Args[0]) {
 					if iv := a.lenOf(st, t.Args[0]); iv.hi != 0 {
 						a.c.undecided("C03.h", key, pos, "append onto %s, which is neither a CSI.Parameters list nor provably empty", types.ExprString(t.Args[0]))
 						return
@@ -1230,8 +1477,8 @@ func (a *c03Len) writerValue(st c03St, what string, pos token.Pos, rhs ast.Expr,
 			return
 		}
 	}
-	if a.selectsCSIParams(rhs) {
-		a.c.ok("C03.h", key, pos, "copy of another CSI.Parameters list")
+	if a.isCSIListValue(rhs) {
+		a.c.ok("C03.h", key, pos, "copy / re-slice of a CSI.Parameters list (or of a local list built under the same obligations)")
 		return
 	}
 	if iv := a.lenOf(st, rhs); iv.hi == 0 {
@@ -1239,6 +1486,35 @@ func (a *c03Len) writerValue(st c03St, what string, pos token.Pos, rhs ast.Expr,
 		return
 	}
 	a.c.undecided("C03.h", key, pos, "CSI.Parameters is written from %s, whose elements the analysis cannot bound", types.ExprString(rhs))
+}
+
+// isCSIListValue: e is a CSI.Parameters list, a followed local list, or a re-slice of one (elements are kept or dropped,
+// never changed).
+func (a *c03Len) isCSIListValue(e ast.Expr) bool {
+	e = unparen(e)
+	if sl, ok := e.(*ast.SliceExpr); ok {
+		return a.isCSIListValue(sl.X)
+	}
+	return a.selectsCSIParams(e) || a.isLocalList(e)
+}
+
+// writerSpec: `var L [][]int` / `var L = v` for a followed local list.
+func (a *c03Len) writerSpec(st c03St, vs *ast.ValueSpec) {
+	for i, nm := range vs.Names {
+		if !a.isLocalList(nm) {
+			continue
+		}
+		switch {
+		case len(vs.Values) == 0:
+			a.NWriters++
+			a.c.ok("C03.h", a.fn+"/var "+nm.Name, vs.Pos(), "declared nil: no elements")
+		case len(vs.Values) == len(vs.Names):
+			a.writerValue(st, nm.Name+" = "+c03Short(vs.Values[i]), vs.Pos(), vs.Values[i], nm)
+		default:
+			a.NWriters++
+			a.c.undecided("C03.h", a.fn+"/var "+nm.Name+" multi-value", vs.Pos(), "a list that reaches CSI.Parameters is initialised by a multi-value expression")
+		}
+	}
 }
 
 func (a *c03Len) writerAssign(st c03St, as *ast.AssignStmt) {
@@ -1249,7 +1525,7 @@ func (a *c03Len) writerAssign(st c03St, as *ast.AssignStmt) {
 			rhs = as.Rhs[i]
 		}
 		switch {
-		case a.selectsCSIParams(l):
+		case a.selectsCSIParams(l) || a.isLocalList(l):
 			if rhs == nil || (as.Tok != token.ASSIGN && as.Tok != token.DEFINE) {
 				a.NWriters++
 				a.c.undecided("C03.h", a.fn+"/"+types.ExprString(l)+" multi-value write", as.Pos(), "CSI.Parameters is written by a multi-value assignment")
